@@ -92,7 +92,7 @@ namespace verif {
     return o.str();
   }
 
-  // species:round(Ekin keV) tokens, e.g. "3:73,1:1001"
+  // branch signature: photons/alphas as species:keV, e-/e+ as bare species, e.g. "3,1:1001"
   inline std::string signature(const bxdecay0::event & e, size_t upto = (size_t)-1)
   {
     std::string s;
@@ -100,7 +100,9 @@ namespace verif {
     char buf[48];
     for (const auto & p : e.get_particles()) {
       if (n > upto) break;
-      snprintf(buf, sizeof buf, "%s%d:%ld", n ? "," : "", (int)p.get_code(), std::lround(ekin(p) * 1000.0));
+      int c = (int)p.get_code();
+      if (c == 2 || c == 3) snprintf(buf, sizeof buf, "%s%d", n ? "," : "", c); // continuous energies do not name a branch
+      else snprintf(buf, sizeof buf, "%s%d:%ld", n ? "," : "", c, std::lround(ekin(p) * 1000.0));
       s += buf;
       ++n;
     }
